@@ -34,6 +34,8 @@ fn classify(msg: &str) -> &'static str {
         "rdivzero"
     } else if msg.contains("with overflow") {
         "arith"
+    } else if msg.contains("bad-input") {
+        "badinput"
     } else if msg.contains("More than MAX_N_FRAC_DIGITS") {
         "nfrac"
     } else if msg.contains("index out of bounds") || msg.contains("out of range for slice") {
@@ -75,7 +77,7 @@ fn mode_name(m: RoundingMode) -> &'static str {
 }
 
 fn dec(c: &str, p: &str) -> Decimal {
-    Decimal::new_raw(c.parse::<i128>().expect("coeff"), p.parse::<u8>().expect("nfrac"))
+    Decimal::new_raw(c.parse::<i128>().unwrap_or_else(|_| panic!("bad-input")), p.parse::<u8>().unwrap_or_else(|_| panic!("bad-input")))
 }
 
 fn show(d: Decimal) -> String {
@@ -142,15 +144,15 @@ macro_rules! meth_forms {
 macro_rules! with_int {
     ($ty:expr, $s:expr, $i:ident => $body:expr) => {
         match $ty {
-            "u8" => { let $i: u8 = $s.parse().expect("int"); $body }
-            "i8" => { let $i: i8 = $s.parse().expect("int"); $body }
-            "u16" => { let $i: u16 = $s.parse().expect("int"); $body }
-            "i16" => { let $i: i16 = $s.parse().expect("int"); $body }
-            "u32" => { let $i: u32 = $s.parse().expect("int"); $body }
-            "i32" => { let $i: i32 = $s.parse().expect("int"); $body }
-            "u64" => { let $i: u64 = $s.parse().expect("int"); $body }
-            "i64" => { let $i: i64 = $s.parse().expect("int"); $body }
-            "i128" => { let $i: i128 = $s.parse().expect("int"); $body }
+            "u8" => { let $i: u8 = $s.parse().unwrap_or_else(|_| panic!("bad-input")); $body }
+            "i8" => { let $i: i8 = $s.parse().unwrap_or_else(|_| panic!("bad-input")); $body }
+            "u16" => { let $i: u16 = $s.parse().unwrap_or_else(|_| panic!("bad-input")); $body }
+            "i16" => { let $i: i16 = $s.parse().unwrap_or_else(|_| panic!("bad-input")); $body }
+            "u32" => { let $i: u32 = $s.parse().unwrap_or_else(|_| panic!("bad-input")); $body }
+            "i32" => { let $i: i32 = $s.parse().unwrap_or_else(|_| panic!("bad-input")); $body }
+            "u64" => { let $i: u64 = $s.parse().unwrap_or_else(|_| panic!("bad-input")); $body }
+            "i64" => { let $i: i64 = $s.parse().unwrap_or_else(|_| panic!("bad-input")); $body }
+            "i128" => { let $i: i128 = $s.parse().unwrap_or_else(|_| panic!("bad-input")); $body }
             _ => panic!("bad int type"),
         }
     };
@@ -236,7 +238,7 @@ fn hash_of<T: Hash>(t: &T) -> u64 {
 fn int_op(op: &str, ty: &str, pos: &str, form: &str, t: &[&str]) -> String {
     // t = [a, p, i, (n)]
     let d = dec(t[0], t[1]);
-    let n: u8 = if t.len() > 3 { t[3].parse().expect("n") } else { 0 };
+    let n: u8 = if t.len() > 3 { t[3].parse().unwrap_or_else(|_| panic!("bad-input")) } else { 0 };
     with_int!(ty, t[2], i => match op {
         "iadd" => show(int_binop!(pos, form, d, i, +, +=)),
         "isub" => show(int_binop!(pos, form, d, i, -, -=)),
@@ -276,7 +278,7 @@ fn int_op(op: &str, ty: &str, pos: &str, form: &str, t: &[&str]) -> String {
 
 fn int_int_op(op: &str, ty: &str, form: &str, t: &[&str]) -> String {
     with_int!(ty, t[0], i => {
-        let j = t[1].parse().expect("int j");
+        let j = t[1].parse().unwrap_or_else(|_| panic!("bad-input"));
         let _: &dyn std::any::Any = &i;
         // make `j` the same type as `i`
         let mut jj = i;
@@ -284,7 +286,7 @@ fn int_int_op(op: &str, ty: &str, form: &str, t: &[&str]) -> String {
         { jj = j; }
         match op {
             "iidivr" => {
-                let n: u8 = t[2].parse().expect("n");
+                let n: u8 = t[2].parse().unwrap_or_else(|_| panic!("bad-input"));
                 show(meth_forms!(form, i, jj, DivRounded::div_rounded, n))
             }
             "iiquant" => show(i.quantize(jj)),
@@ -312,11 +314,11 @@ fn run(mode_tok: &str, t: &[&str]) -> String {
         "cdiv" => show_opt(meth_forms!(t[1], dec(t[2], t[3]), dec(t[4], t[5]), CheckedDiv::checked_div)),
         "crem" => show_opt(meth_forms!(t[1], dec(t[2], t[3]), dec(t[4], t[5]), CheckedRem::checked_rem)),
         "mulr" => {
-            let n: u8 = t[6].parse().expect("n");
+            let n: u8 = t[6].parse().unwrap_or_else(|_| panic!("bad-input"));
             show(meth_forms!(t[1], dec(t[2], t[3]), dec(t[4], t[5]), MulRounded::mul_rounded, n))
         }
         "divr" => {
-            let n: u8 = t[6].parse().expect("n");
+            let n: u8 = t[6].parse().unwrap_or_else(|_| panic!("bad-input"));
             show(meth_forms!(t[1], dec(t[2], t[3]), dec(t[4], t[5]), DivRounded::div_rounded, n))
         }
         "quant" => show(dec(t[1], t[2]).quantize(dec(t[3], t[4]))),
@@ -324,8 +326,8 @@ fn run(mode_tok: &str, t: &[&str]) -> String {
         | "idivr" | "iquant" | "ieq" | "icmp" => int_op(op, t[1], t[2], t[3], &t[4..]),
         "iidivr" => int_int_op(op, t[1], t[2], &t[3..]),
         "iiquant" => int_int_op(op, t[1], "vv", &t[2..]),
-        "round" => show(dec(t[1], t[2]).round(t[3].parse::<i8>().expect("n"))),
-        "cround" => show_opt(dec(t[1], t[2]).checked_round(t[3].parse::<i8>().expect("n"))),
+        "round" => show(dec(t[1], t[2]).round(t[3].parse::<i8>().unwrap_or_else(|_| panic!("bad-input")))),
+        "cround" => show_opt(dec(t[1], t[2]).checked_round(t[3].parse::<i8>().unwrap_or_else(|_| panic!("bad-input")))),
         "cmp" => {
             let (x, y) = (dec(t[1], t[2]), dec(t[3], t[4]));
             let pc = x.partial_cmp(&y);
@@ -347,20 +349,20 @@ fn run(mode_tok: &str, t: &[&str]) -> String {
         }
         "kdivr" => {
             let m = mode_of(mode_tok).unwrap();
-            let v = fpdec_core::i128_div_rounded(t[1].parse().unwrap(), t[2].parse().unwrap(), Some(m));
+            let v = fpdec_core::i128_div_rounded(t[1].parse().unwrap_or_else(|_| panic!("bad-input")), t[2].parse().unwrap_or_else(|_| panic!("bad-input")), Some(m));
             format!("ok {}", v)
         }
         "kwsh" => match fpdec_core::i128_shifted_div_mod_floor(
-            t[1].parse().unwrap(), t[2].parse().unwrap(), t[3].parse().unwrap()) {
+            t[1].parse().unwrap_or_else(|_| panic!("bad-input")), t[2].parse().unwrap_or_else(|_| panic!("bad-input")), t[3].parse().unwrap_or_else(|_| panic!("bad-input"))) {
             Some((q, r)) => format!("ok {} {}", q, r),
             None => "none".to_string(),
         },
         "kw256" => match fpdec_core::i256_div_mod_floor(
-            t[1].parse().unwrap(), t[2].parse().unwrap(), t[3].parse().unwrap()) {
+            t[1].parse().unwrap_or_else(|_| panic!("bad-input")), t[2].parse().unwrap_or_else(|_| panic!("bad-input")), t[3].parse().unwrap_or_else(|_| panic!("bad-input"))) {
             Some((q, r)) => format!("ok {} {}", q, r),
             None => "none".to_string(),
         },
-        "kmagn" => format!("{}", fpdec_core::i128_magnitude(t[1].parse().unwrap())),
+        "kmagn" => format!("{}", fpdec_core::i128_magnitude(t[1].parse().unwrap_or_else(|_| panic!("bad-input")))),
         "parse" => {
             let bytes = unhex(t[1]);
             match std::str::from_utf8(&bytes) {
@@ -405,16 +407,16 @@ fn run(mode_tok: &str, t: &[&str]) -> String {
         }
         "tof64" => format!("{}", f64::from(dec(t[1], t[2])).to_bits()),
         "tof32" => format!("{}", f32::from(dec(t[1], t[2])).to_bits()),
-        "fromf64" => match Decimal::try_from(f64::from_bits(t[1].parse().unwrap())) {
+        "fromf64" => match Decimal::try_from(f64::from_bits(t[1].parse().unwrap_or_else(|_| panic!("bad-input")))) {
             Ok(d) => show(d),
             Err(e) => float_err(e),
         },
-        "fromf32" => match Decimal::try_from(f32::from_bits(t[1].parse().unwrap())) {
+        "fromf32" => match Decimal::try_from(f32::from_bits(t[1].parse().unwrap_or_else(|_| panic!("bad-input")))) {
             Ok(d) => show(d),
             Err(e) => float_err(e),
         },
         "fromint" => with_int!(t[1], t[2], i => show(Decimal::from(i))),
-        "fromu128" => match Decimal::try_from(t[1].parse::<u128>().unwrap()) {
+        "fromu128" => match Decimal::try_from(t[1].parse::<u128>().unwrap_or_else(|_| panic!("bad-input"))) {
             Ok(d) => show(d),
             Err(e) => float_err(e),
         },
@@ -539,7 +541,7 @@ fn nt_op(t: &[&str]) -> String {
         "radix" => {
             let bytes = unhex(t[3]);
             let s = std::str::from_utf8(&bytes).unwrap();
-            match <Decimal as Num>::from_str_radix(s, t[2].parse().unwrap()) {
+            match <Decimal as Num>::from_str_radix(s, t[2].parse().unwrap_or_else(|_| panic!("bad-input"))) {
                 Ok(d) => show(d),
                 Err(e) => format!("err {:?}", e),
             }
@@ -572,7 +574,7 @@ fn run_threads(ops: &[&str]) -> String {
                             "-".to_string()
                         }
                         "g" => mode_name(RoundingMode::default()).to_string(),
-                        "r" => show(dec(parts[2], parts[3]).round(parts[4].parse::<i8>().unwrap()))
+                        "r" => show(dec(parts[2], parts[3]).round(parts[4].parse::<i8>().unwrap_or_else(|_| panic!("bad-input"))))
                             .replace(' ', ","),
                         _ => "bad-op".to_string(),
                     });
